@@ -1,5 +1,5 @@
 (* Lemmas about the configuration loader model (C13, C14). *)
-From Coq Require Import List ZArith Bool Lia Permutation.
+From Coq Require Import List ZArith Bool Lia Permutation Sorted.
 From Bfe Require Import lib.Val lib.ValProofs lib.Bytes model.ConfLoad model.ConfLoadWire.
 Import ListNotations.
 Open Scope Z_scope.
@@ -595,4 +595,279 @@ Lemma guard_inhabited :
 Proof.
   split; [vm_compute; reflexivity|]. split; [vm_compute; reflexivity|]. split; [vm_compute; reflexivity|].
   unfold same_up_to_map_order, perm_opt; simpl. repeat split; auto using Permutation_refl; apply perm_swap.
+Qed.
+
+(* ------------------------------------------------------------------ bal_gslb.Init: sorting by name removes the map order *)
+Lemma str_ltb_irrefl a : str_ltb a a = false.
+Proof. induction a as [|x a IH]; simpl; [reflexivity|]. rewrite Z.ltb_irrefl, Z.eqb_refl, IH. reflexivity. Qed.
+Lemma str_ltb_trans a : forall b c, str_ltb a b = true -> str_ltb b c = true -> str_ltb a c = true.
+Proof.
+  induction a as [|x a IH]; intros [|y b] [|z c]; simpl; intros H1 H2; try discriminate; try reflexivity.
+  apply orb_true_iff in H1. apply orb_true_iff in H2. apply orb_true_iff.
+  destruct H1 as [H1 | H1], H2 as [H2 | H2].
+  - left. apply Z.ltb_lt in H1, H2. apply Z.ltb_lt. lia.
+  - apply andb_true_iff in H2. destruct H2 as [H2 _]. apply Z.eqb_eq in H2. subst. left. exact H1.
+  - apply andb_true_iff in H1. destruct H1 as [H1 _]. apply Z.eqb_eq in H1. subst. left. exact H2.
+  - apply andb_true_iff in H1. apply andb_true_iff in H2. destruct H1 as [H1 H1'], H2 as [H2 H2'].
+    apply Z.eqb_eq in H1, H2. subst. right. rewrite Z.eqb_refl. simpl. eapply IH; eassumption.
+Qed.
+Lemma str_ltb_total a : forall b, a <> b -> str_ltb a b = true \/ str_ltb b a = true.
+Proof.
+  induction a as [|x a IH]; intros [|y b] Hne; simpl; try (left; reflexivity); try (right; reflexivity); try congruence.
+  destruct (Z.lt_trichotomy x y) as [H | [H | H]].
+  - left. apply orb_true_iff. left. apply Z.ltb_lt. exact H.
+  - subst. rewrite Z.ltb_irrefl, Z.eqb_refl. simpl. apply IH. congruence.
+  - right. apply orb_true_iff. left. apply Z.ltb_lt. exact H.
+Qed.
+
+Definition name_lt {A} (x y : str * A) : Prop := str_ltb (fst x) (fst y) = true.
+Lemma insert_sorted_perm {A} (e : str * A) l : Permutation (e :: l) (insert_sorted e l).
+Proof.
+  induction l as [|x r IH]; simpl; [apply Permutation_refl|].
+  destruct (str_ltb (fst x) (fst e)).
+  - eapply Permutation_trans; [apply perm_swap | apply perm_skip; exact IH].
+  - apply Permutation_refl.
+Qed.
+Lemma sort_by_name_perm {A} (l : list (str * A)) : Permutation l (sort_by_name l).
+Proof.
+  induction l as [|e r IH]; simpl; [constructor|].
+  eapply Permutation_trans; [apply perm_skip; exact IH | apply insert_sorted_perm].
+Qed.
+Lemma insert_sorted_sorted {A} (e : str * A) l :
+  StronglySorted name_lt l -> ~ In (fst e) (map fst l) -> StronglySorted name_lt (insert_sorted e l).
+Proof.
+  induction l as [|x r IH]; simpl; intros Hs Hni.
+  - constructor; constructor.
+  - inversion Hs as [|? ? Hs' Hall]; subst.
+    destruct (str_ltb (fst x) (fst e)) eqn:E.
+    + constructor.
+      * apply IH; [exact Hs' | intro H; apply Hni; right; exact H].
+      * rewrite Forall_forall. intros y Hy.
+        apply (Permutation_in _ (Permutation_sym (insert_sorted_perm e r))) in Hy. destruct Hy as [Hy | Hy].
+        -- subst. exact E.
+        -- rewrite Forall_forall in Hall. apply Hall. exact Hy.
+    + assert (Hlt : str_ltb (fst e) (fst x) = true).
+      { destruct (str_ltb_total (fst e) (fst x)) as [H | H]; [|exact H|congruence].
+        intro Heq. apply Hni. left. symmetry. exact Heq. }
+      constructor; [exact Hs|]. constructor; [exact Hlt|].
+      rewrite Forall_forall in *. intros y Hy. unfold name_lt. eapply str_ltb_trans; [exact Hlt | apply Hall; exact Hy].
+Qed.
+Lemma sort_by_name_sorted {A} (l : list (str * A)) : NoDup (map fst l) -> StronglySorted name_lt (sort_by_name l).
+Proof.
+  induction l as [|e r IH]; simpl; intro Hnd; [constructor|].
+  inversion Hnd; subst. apply insert_sorted_sorted; [apply IH; assumption|].
+  intro H. apply H1. eapply Permutation_in; [apply Permutation_map; apply Permutation_sym; apply sort_by_name_perm | exact H].
+Qed.
+Lemma sorted_perm_eq {A} (l : list (str * A)) : forall l',
+  StronglySorted name_lt l -> StronglySorted name_lt l' -> Permutation l l' -> l = l'.
+Proof.
+  induction l as [|x r IH]; intros [|y r'] Hs Hs' Hp.
+  - reflexivity.
+  - apply Permutation_nil in Hp. discriminate.
+  - apply Permutation_sym, Permutation_nil in Hp. discriminate.
+  - inversion Hs as [|? ? Hs1 Hall]; subst. inversion Hs' as [|? ? Hs1' Hall']; subst.
+    rewrite Forall_forall in Hall, Hall'.
+    assert (Hxy : x = y).
+    { assert (Hx : In x (y :: r')) by (eapply Permutation_in; [exact Hp | left; reflexivity]).
+      assert (Hy : In y (x :: r)) by (eapply Permutation_in; [apply Permutation_sym; exact Hp | left; reflexivity]).
+      destruct Hx as [Hx | Hx]; [congruence|]. destruct Hy as [Hy | Hy]; [exact Hy|]. exfalso.
+      specialize (Hall _ Hy). specialize (Hall' _ Hx). unfold name_lt in *.
+      pose proof (str_ltb_trans _ _ _ Hall Hall') as Hc. rewrite str_ltb_irrefl in Hc. discriminate. }
+    subst. f_equal. apply IH; [assumption | assumption |]. eapply Permutation_cons_inv. exact Hp.
+Qed.
+Lemma pos_total_perm l l' : Permutation l l' -> pos_total l = pos_total l'.
+Proof. unfold pos_total. induction 1; simpl; lia. Qed.
+
+(* Go's map range over gslbConf may visit the sub-clusters in any order; Init's result does not depend on it *)
+Lemma gslb_init_perm conf conf' : NoDup (map fst conf) -> Permutation conf conf' -> gslb_init conf = gslb_init conf'.
+Proof.
+  intros Hnd Hp. unfold gslb_init. rewrite (pos_total_perm _ _ Hp).
+  assert (Hs : sort_by_name conf = sort_by_name conf').
+  { apply sorted_perm_eq.
+    - apply sort_by_name_sorted. exact Hnd.
+    - apply sort_by_name_sorted. eapply Permutation_NoDup; [apply Permutation_map; exact Hp | exact Hnd].
+    - eapply Permutation_trans; [apply Permutation_sym; apply sort_by_name_perm|].
+      eapply Permutation_trans; [exact Hp | apply sort_by_name_perm]. }
+  rewrite Hs. reflexivity.
+Qed.
+
+(* ------------------------------------------------------------------ C13: documented => accepted *)
+Lemma same_slot_sym a b : same_slot a b = same_slot b a.
+Proof.
+  unfold same_slot. rewrite (seqb_sym (te_hk a)), (seqb_sym (te_pk a)).
+  destruct (te_hw a), (te_hw b), (te_pw a), (te_pw b); reflexivity.
+Qed.
+Lemma slots_distinct_app a : forall b,
+  slots_distinct (a ++ b) = true ->
+  slots_distinct a = true /\ slots_distinct b = true /\ (forall x y, In x a -> In y b -> same_slot x y = false).
+Proof.
+  induction a as [|e a IH]; simpl; intros b H.
+  - repeat split; [exact H | intros x y []].
+  - apply andb_true_iff in H. destruct H as [H1 H2]. apply negb_true_iff in H1.
+    rewrite existsb_app in H1. apply orb_false_iff in H1. destruct H1 as [H1a H1b].
+    destruct (IH b H2) as [Ha [Hb Hc]]. repeat split.
+    + rewrite H1a, Ha. reflexivity.
+    + exact Hb.
+    + intros x y [Hx | Hx] Hy.
+      * subst. destruct (same_slot x y) eqn:E; [|reflexivity].
+        assert (existsb (same_slot x) b = true) by (apply existsb_exists; exists y; split; assumption). congruence.
+      * apply Hc; assumption.
+Qed.
+Lemma tree_insert_all_ok es : forall t,
+  slots_distinct es = true -> (forall e, In e es -> existsb (same_slot e) t = false) ->
+  tree_insert_all t es = Some (rev es ++ t).
+Proof.
+  induction es as [|e r IH]; simpl; intros t Hd Ht; [reflexivity|].
+  apply andb_true_iff in Hd. destruct Hd as [Hd1 Hd2]. apply negb_true_iff in Hd1.
+  rewrite (Ht e (or_introl eq_refl)). rewrite IH.
+  - rewrite <- app_assoc. reflexivity.
+  - exact Hd2.
+  - intros e' He'. simpl. rewrite (Ht e' (or_intror He')), orb_false_r.
+    rewrite same_slot_sym. destruct (same_slot e e') eqn:E; [|reflexivity].
+    assert (existsb (same_slot e) r = true) by (apply existsb_exists; exists e'; split; assumption). congruence.
+Qed.
+Definition ent (r : basic_rule) : list tree_entry := rule_entries r (odef [] (br_cluster r)).
+Lemma basic_rules_build_ok rules : forall t,
+  forallb doc_basic_rule rules = true -> slots_distinct (flat_map ent rules) = true ->
+  (forall e, In e (flat_map ent rules) -> existsb (same_slot e) t = false) ->
+  exists t', basic_rules_build t rules = Some t'.
+Proof.
+  induction rules as [|r rest IH]; simpl; intros t Hdoc Hd Ht; [eauto|].
+  apply andb_true_iff in Hdoc. destruct Hdoc as [Hr Hrest].
+  unfold doc_basic_rule in Hr. apply andb_true_iff in Hr. destruct Hr as [Hr Hp].
+  apply andb_true_iff in Hr. destruct Hr as [Hr Hh]. apply andb_true_iff in Hr. destruct Hr as [Hc Hne].
+  destruct (br_cluster r) as [c|] eqn:Ec; [|discriminate].
+  destruct (slots_distinct_app _ _ Hd) as [Hd1 [Hd2 Hcross]].
+  assert (Ent : ent r = rule_entries r c) by (unfold ent; rewrite Ec; reflexivity).
+  replace (match br_hosts r with [] => match br_paths r with [] => true | _ :: _ => false end | _ :: _ => false end)
+    with false by (destruct (br_hosts r), (br_paths r); simpl in Hne; congruence).
+  rewrite Hh, Hp. simpl. rewrite <- Ent.
+  rewrite (tree_insert_all_ok (ent r) t Hd1) by (intros e He; apply Ht; apply in_or_app; left; exact He).
+  apply IH; [exact Hrest | exact Hd2 |].
+  intros e He. rewrite existsb_app. rewrite (Ht e) by (apply in_or_app; right; exact He). rewrite orb_false_r.
+  destruct (existsb (same_slot e) (rev (ent r))) eqn:E; [|reflexivity].
+  apply existsb_exists in E. destruct E as [x [Hx Hs]]. apply in_rev in Hx.
+  rewrite same_slot_sym in Hs. rewrite (Hcross x e Hx He) in Hs. discriminate.
+Qed.
+
+Lemma forallb_trim_left f l : forallb f l = false -> forallb f (trim_left f l) = false.
+Proof.
+  induction l as [|x r IH]; simpl; intro H; [discriminate|].
+  destruct (f x) eqn:E; simpl in *; [apply IH; exact H | rewrite E; reflexivity].
+Qed.
+Lemma forallb_rev {A} (f : A -> bool) l : forallb f (rev l) = forallb f l.
+Proof. apply forallb_perm. apply Permutation_sym. apply Permutation_rev. Qed.
+Lemma trim_nonempty f l : forallb f l = false -> trim f l <> [].
+Proof.
+  intro H. unfold trim, trim_right.
+  apply forallb_trim_left in H. rewrite <- forallb_rev in H. apply forallb_trim_left in H. rewrite <- forallb_rev in H.
+  intro E. rewrite E in H. discriminate.
+Qed.
+
+Lemma doc_cluster_conf_ok c : doc_cluster_conf c = true -> cluster_conf_ok c = true.
+Proof.
+  unfold doc_cluster_conf, cluster_conf_ok. intro H.
+  apply andb_true_iff in H. destruct H as [H Hmode]. apply andb_true_iff in H. destruct H as [H Hhash].
+  apply andb_true_iff in H. destruct H as [H Hsucc]. apply andb_true_iff in H. destruct H as [Hproto Hschem].
+  apply andb_true_iff; split; [apply andb_true_iff; split|].
+  - unfold backend_basic_ok. destruct (cc_protocol c) as [p|]; [|reflexivity]. simpl odef.
+    apply mem_str_In in Hproto. simpl in Hproto.
+    destruct Hproto as [E | [E | [E | [E | [E | []]]]]]; subst; reflexivity.
+  - unfold backend_check_ok. cbv zeta.
+    assert (Hs : 1 <=? odef 1 (cc_succ c) = true) by (destruct (cc_succ c); [exact Hsucc | reflexivity]).
+    rewrite Hs, andb_true_r.
+    destruct (cc_schem c) as [s|]; simpl odef.
+    + destruct (seqb s s_tcp) eqn:Et.
+      * apply seqb_eq in Et. subst. reflexivity.
+      * apply andb_true_iff in Hschem. destruct Hschem as [Hschem Hst]. apply andb_true_iff in Hschem.
+        destruct Hschem as [Hh Hu]. rewrite Hh, Hu, Hst. reflexivity.
+    + change (seqb s_http s_http) with true. change (seqb s_http s_tcp) with false. simpl. exact Hschem.
+  - unfold gslb_basic_ok. apply andb_true_iff. split.
+    + unfold hash_conf_ok. cbv zeta in Hhash. set (st := odef 1 (cc_hash_strategy c)) in *.
+      apply orb_true_iff in Hhash. destruct Hhash as [Hhash | Hhash].
+      * apply orb_true_iff in Hhash. destruct Hhash as [E | E]; apply Z.eqb_eq in E; rewrite E; reflexivity.
+      * apply andb_true_iff in Hhash. destruct Hhash as [Hst Hh].
+        assert (Hs : (st =? 0) || (st =? 1) || (st =? 2) || (st =? 3) = true).
+        { apply orb_true_iff in Hst. destruct Hst as [E | E]; apply Z.eqb_eq in E; rewrite E; reflexivity. }
+        rewrite Hs, Hst. simpl.
+        destruct (cc_hash_header c) as [[|x h]|]; try discriminate.
+        destruct (after_colon (x :: h)) as [k|]; [|reflexivity].
+        apply negb_true_iff in Hh. pose proof (trim_nonempty _ _ Hh) as Hne.
+        destruct (trim is_space_go k); [congruence | reflexivity].
+    + destruct (cc_bal_mode c) as [m|]; [|reflexivity]. simpl odef.
+      apply orb_true_iff in Hmode. destruct Hmode as [E | E]; apply seqb_eq in E; subst; reflexivity.
+Qed.
+
+Lemma documented_is_accepted fs : documented fs = true -> accepted fs = true.
+Proof.
+  unfold documented. intro H.
+  apply andb_true_iff in H. destruct H as [H Hrefs]. apply andb_true_iff in H. destruct H as [H Hcl].
+  apply andb_true_iff in H. destruct H as [H Hroute]. apply andb_true_iff in H. destruct H as [Hhost Hvip].
+  unfold doc_host in Hhost.
+  destruct (hf_version (fs_host fs)) as [ver|] eqn:Ever; [|discriminate].
+  destruct (hf_hosts (fs_host fs)) as [hosts|] eqn:Ehosts; [|discriminate].
+  destruct (hf_tags (fs_host fs)) as [tags|] eqn:Etags; [|discriminate].
+  apply andb_true_iff in Hhost. destruct Hhost as [Hhost Hndt]. apply andb_true_iff in Hhost. destruct Hhost as [Hhost Hndh].
+  apply andb_true_iff in Hhost. destruct Hhost as [Hhost Hdef]. apply andb_true_iff in Hhost. destruct Hhost as [Hhost Htd].
+  apply andb_true_iff in Hhost. destruct Hhost as [Hph Hpt].
+  assert (G1 : distinct_lower_hosts fs = true) by (unfold distinct_lower_hosts, host_keys; rewrite Ehosts; exact Hndh).
+  assert (TMnd : NoDup (map fst (TM fs))) by (unfold TM; rewrite Etags; apply nodup_str_NoDup; exact Hndt).
+  unfold accepted, load. rewrite (load_with_char _ fs (guard_hosts fs G1)).
+  assert (Hchk : the_checks fs = true); [|rewrite Hchk; reflexivity].
+  unfold the_checks.
+  apply andb_true_iff; split; [apply andb_true_iff; split; [apply andb_true_iff; split; [apply andb_true_iff; split|]|]|].
+  - (* HostTableConfCheck *)
+    unfold host_conf_check. rewrite Ever, Ehosts, Etags. repeat (apply andb_true_iff; split).
+    + exact Hpt.
+    + apply forallb_forall. intros [t ol] Hin. simpl.
+      unfold all_present in Hph. rewrite forallb_forall in Hph. specialize (Hph _ Hin). simpl in Hph.
+      destruct ol as [l|]; [|discriminate].
+      rewrite forallb_forall in Htd. assert (Ht : In t (map fst hosts)) by (apply in_map_iff; exists (t, Some l); auto).
+      specialize (Htd _ Ht). apply mem_str_In in Htd. apply in_map_iff in Htd. destruct Htd as [[t' p] [E Hin']].
+      simpl in E. subst t'. apply flat_tags_In in Hin'. destruct Hin' as [tl [Hp Htl]].
+      apply existsb_exists. exists (p, Some tl). split; [exact Hp|]. simpl. apply mem_str_In. exact Htl.
+    + destruct (hf_default (fs_host fs)) as [d|]; [|reflexivity].
+      apply mem_str_In in Hdef. apply assoc_some_iff in Hdef. destruct Hdef as [v Hv]. rewrite Hv. reflexivity.
+  - (* VipTableConfCheck *)
+    unfold doc_vip in Hvip. unfold vip_conf_check. apply andb_true_iff in Hvip. destruct Hvip as [Hv1 Hv2].
+    rewrite Hv2, andb_true_r. destruct (vf_version (fs_vip fs)); [discriminate | reflexivity].
+  - (* convert *)
+    unfold doc_route in Hroute. unfold route_conf_check.
+    apply andb_true_iff in Hroute. destruct Hroute as [Hroute Hadv]. apply andb_true_iff in Hroute.
+    destruct Hroute as [Hroute Hbasic]. apply andb_true_iff in Hroute. destruct Hroute as [Hrv Hrt].
+    destruct (rf_version (fs_route fs)); [|discriminate].
+    assert (Hb : forallb (fun e : str * list basic_rule =>
+                            match basic_rules_build [] (snd e) with Some _ => true | None => false end)
+                         (olist (rf_basic (fs_route fs))) = true).
+    { apply forallb_forall. intros e He. rewrite forallb_forall in Hbasic. specialize (Hbasic _ He).
+      apply andb_true_iff in Hbasic. destruct Hbasic as [Hd Hs].
+      destruct (basic_rules_build_ok (snd e) [] Hd Hs) as [t' Ht']; [intros; reflexivity|]. rewrite Ht'. reflexivity. }
+    rewrite Hb. simpl.
+    destruct (rf_basic (fs_route fs)), (rf_adv (fs_route fs)); try discriminate; exact Hadv.
+  - (* BfeClusterConfCheck *)
+    unfold doc_cluster in Hcl. unfold cluster_conf_load.
+    destruct (cf_version (fs_cluster fs)); [|discriminate]. destruct (cf_config (fs_cluster fs)) as [cfg|]; [|discriminate].
+    assert (Hok : forallb (fun e : str * cluster_conf => cluster_conf_ok (snd e)) cfg = true).
+    { apply forallb_forall. intros e He. rewrite forallb_forall in Hcl. apply doc_cluster_conf_ok. apply Hcl. exact He. }
+    rewrite Hok. reflexivity.
+  - (* ServerDataConf.check *)
+    unfold doc_refs in Hrefs. apply andb_true_iff in Hrefs. destruct Hrefs as [Hrefs Hrb].
+    apply andb_true_iff in Hrefs. destruct Hrefs as [Hrp Hra].
+    unfold sdc_check. repeat (apply andb_true_iff; split).
+    + apply forallb_forall. intros p Hp. rewrite forallb_forall in Hrp. specialize (Hrp _ Hp).
+      apply mem_str_In in Hrp. unfold products_with_tags in Hrp. fold (TM fs) in Hrp.
+      apply in_map_iff in Hrp. destruct Hrp as [[t p'] [E Hin]]. simpl in E. subst p'.
+      apply mem_str_In. unfold tagmap_products. apply in_map_iff. exists (t, p). split; [|exact Hin]. simpl.
+      unfold assoc_last. rewrite (assoc_nodup t p (rev (TM fs))); [reflexivity | | apply in_rev; rewrite rev_involutive; exact Hin].
+      rewrite map_rev. apply NoDup_rev. exact TMnd.
+    + exact Hra.
+    + apply forallb_forall. intros c Hc. unfold basic_clusters_checked in Hc.
+      apply in_flat_map in Hc. destruct Hc as [e [He Hc]]. apply in_flat_map in Hc. destruct Hc as [r [Hr Hc]].
+      destruct (seqb (odef [] (br_cluster r)) ADVANCED_MODE) eqn:E; [contradiction|].
+      destruct Hc as [Hc | []]. subst c.
+      rewrite forallb_forall in Hrb.
+      assert (Hin : In (odef [] (br_cluster r))
+                       (flat_map (fun e => map (fun r => odef [] (br_cluster r)) (snd e)) (olist (rf_basic (fs_route fs))))).
+      { apply in_flat_map. exists e. split; [exact He|]. apply in_map. exact Hr. }
+      specialize (Hrb _ Hin). rewrite E, orb_false_r in Hrb. exact Hrb.
 Qed.
